@@ -271,6 +271,42 @@ def run(ctx):
                      "result, ports_with_no_items, forwarder_busy, successor registered, tuples delivered and every port's buffer size after every operation, and all tuples, compared with JoinModel; "
                      "oracle: the i-th tuple is the i-th message of every port")
     diff_tie(ctx, "join-seq", exe, ["joinseq"], "join", jcases, oracle=join_oracle, describe=jdesc, bucket=lambda c: "join N=%d" % c[0])
+    # join_node (reserving) fed by queue_nodes, op by op, against JoinRModel
+    rcases_j = []
+    for _ in range(ctx.scale(250, 6000)):
+        N = lrng.choice([2, 2, 3])
+        c = [N]
+        val = [0] * N
+        for _ in range(lrng.randint(3, 30)):
+            r_ = lrng.random()
+            if r_ < 0.68:
+                p_ = lrng.randrange(N) if lrng.random() < 0.7 else N - 1
+                val[p_] += 1
+                c += [1, p_, 1000 * (p_ + 1) + val[p_]]
+            elif r_ < 0.76:
+                c += [3, 0, 0]
+            elif r_ < 0.84:
+                c += [2, 0, 0]
+            elif r_ < 0.92:
+                c += [4, 0, 0]
+            else:
+                c += [6, 0, 0]
+        rcases_j.append(c)
+
+    def jrdesc(c):
+        return jdesc(c).replace("queueing", "reserving (one queue_node per port)")
+
+    def joinr_oracle(c, toks):
+        if "-7" not in toks or "-8" not in toks:
+            return ("join-hang-or-crash", jrdesc(c) + ": " + " ".join(toks[-6:]))
+        k8 = len(toks) - 2
+        if toks[k8] != "-8" or toks[k8 + 1] != "0":
+            return ("join-reservation-left-pending", "%s: after an operation completed a port or a sender still holds a reservation (%s observations) - reservations must be consumed together or all released" % (jrdesc(c), toks[k8 + 1]))
+        return join_oracle(c, toks[:k8])
+    ctx.rules.append("joinr-seq: join_node<tuple<long,long[,long]>, reserving> fed by one queue_node per port, scripted successor, drained after each of 3-30 operations: result, ports_with_no_inputs, forwarder_busy, "
+                     "successor registered, tuples delivered, every sender's buffer size and whether it is in the port's predecessor cache, and all tuples, compared with JoinRModel; oracle: the i-th tuple is the i-th "
+                     "message of every port and no reservation is pending after an operation")
+    diff_tie(ctx, "joinr-seq", exe, ["joinrseq"], "joinr", rcases_j, oracle=joinr_oracle, describe=jrdesc, bucket=lambda c: "joinr N=%d" % c[0])
     # real threads
     runs = []
     for r in range(ctx.scale(6, 60)):
@@ -306,6 +342,8 @@ def replay(ctx, rep):
         diff_tie(ctx, "fgbuf-seq", exe, ["seq"], "buf", [rep["case"]], oracle=seq_oracle, describe=sdescribe)
     elif rep.get("tie") == "limiter-seq":
         diff_tie(ctx, "limiter-seq", exe, ["limseq"], "lim", [rep["case"]])
+    elif rep.get("tie") == "joinr-seq":
+        diff_tie(ctx, "joinr-seq", exe, ["joinrseq"], "joinr", [rep["case"]])
     elif rep.get("tie") == "join-seq":
         diff_tie(ctx, "join-seq", exe, ["joinseq"], "join", [rep["case"]])
     elif rep.get("tie") == "fgbuf-prio":
